@@ -33,12 +33,101 @@ def check(ctx, tier):
     gather(ctx, tk)
     config(ctx, tk)
     threading(ctx, tk)
+    memoised_geometry(ctx, tk)
+    exported_width(ctx, tk)
     fs = [ctx.func(VB + n) for n in ("_index_rows", "set_dtype", "__init__")] + [ctx.func("raggedshape.RaggedShape.__init__"), ctx.func("raggedshape.build_indices")]
     hazards.h4_take_with_unknown_index(ctx, tk, "C19.a", fs)
     W.report(ctx, tk, "C19.d", fs)
     from .. import hazards as _hz, scopes as _sc
-    _hz.generic(ctx, tk, "C19.z", _sc.scope(tk, "C19"))
+    _hz.generic(ctx, tk, "C19.z", _sc.scope(tk, "C19", depth=2))
     return {}
+
+
+MEMO_DECORATORS = {"lru_cache", "cache", "cached_property"}
+_MEMO_SAMPLE = """
+import functools
+from functools import lru_cache
+class A:
+    @classmethod
+    @lru_cache(maxsize=8)
+    def f(cls, x):
+        return x
+    @functools.cache
+    def g(self):
+        return 1
+    @property
+    def h(self):
+        return 2
+"""
+
+
+def _memo_decorated(node):
+    for d in getattr(node, "decorator_list", []):
+        dn = d.func if isinstance(d, ast.Call) else d
+        nm = dn.attr if isinstance(dn, ast.Attribute) else (dn.id if isinstance(dn, ast.Name) else None)
+        if nm in MEMO_DECORATORS:
+            return nm
+    return None
+
+
+def memoised_geometry(ctx, tk):
+    """the index dtype is mutable global configuration: a memoised function whose result depends on it (reads
+    `_dtype`, directly or in what it calls) hands out objects built under the previous configuration"""
+    import ast as _ast
+    smp = _ast.parse(_MEMO_SAMPLE).body[2]
+    got = {m.name: _memo_decorated(m) for m in smp.body}
+    if got != {"f": "lru_cache", "g": "cache", "h": None}:
+        from ..model import AnalysisError
+        raise AnalysisError("memo decorator recogniser failed its built-in sample")
+    what = "no result that depends on the configured index dtype is memoised across set_dtype()"
+    n = 0
+    reads = {}
+    for q, f in ctx.program.funcs.items():
+        # the geometry's index dtype lives on ViewBase (module raggedshape); BitMask._dtype is that class's own register type
+        reads[q] = f.module.short == "raggedshape" and any(isinstance(x, ast.Attribute) and x.attr == "_dtype" and isinstance(x.ctx, ast.Load) for x in ast.walk(f.node))
+    for q, f in sorted(ctx.program.funcs.items()):
+        nm = _memo_decorated(f.node)
+        if nm is None:
+            continue
+        n += 1
+        reach = tk.R.reachable([q])
+        dep = sorted(r for r in reach if reads.get(r))
+        # constructing a geometry object runs ViewBase.__init__, which reads _dtype
+        ctx.decide("C19.e", f, what, False if dep else True,
+                   "@%s keeps results of `%s`, which depend on the index dtype through %s: after set_dtype() a cached object built with the other width is "
+                   "returned and its codes are reinterpreted" % (nm, f.name, ", ".join(dep[:3])), node=f.node, key="memo", engine="E3")
+    if not n:
+        ctx.holds("C19.e", VB + "set_dtype", what, key="memo:none", engine="E3", detail="no memoising decorator in the tree; recogniser exercised on the built-in sample")
+
+
+def exported_width(ctx, tk):
+    """codes handed out for storage (to_dict) and read back (from_dict) use the same width rule: both the configured
+    dtype; a fixed width on one side only is reinterpreted by the other"""
+    what = "the stored code array is neither widened nor narrowed to a fixed width (from_dict reinterprets it in the configured width)"
+    for cq in ("raggedshape.RaggedShape", "raggedshape.RaggedView", "raggedshape.RaggedView2", "raggedshape.ViewBase"):
+        c = ctx.program.classes.get(cq)
+        if c is None:
+            continue
+        for m in c.methods.values():
+            if m.name not in ("to_dict", "from_dict", "__getstate__", "__setstate__", "__reduce__"):
+                continue
+            fa = ctx.fa(m)
+            for r in fa.cfg.returns():
+                tm = fa.term(r.ast.value, r)
+                fixed = []
+                for x in walk(tm):
+                    if x.k == "call":
+                        dts = [v for k_, v in x.a[2] if k_ == "dtype"]
+                        if x.a[0].k == "attr" and x.a[0].a[1] in ("astype", "view") and x.a[1]:
+                            dts.append(x.a[1][0])
+                        for d in dts:
+                            nm = (attr_chain(d) or ("",))[-1] if d.k != "const" else d.a[0]
+                            if nm in ("int64", "int32", "int", "intp", "int_", "uint64", "uint32", "i8", "i4"):
+                                if any((attr_chain(y) or ("",))[-1] == "_codes" or (y.k == "sub" and y.a[0].k == "param") for y in walk(x)):
+                                    fixed.append((x, nm))
+                ctx.decide("C19.e", m, what, False if fixed else True,
+                           "`%s` fixes the width to %s on one side of the save/load pair: under the other index width the loaded codes are reinterpreted "
+                           "(twice as many rows, garbage starts)" % (fixed[0][0] if fixed else "", fixed[0][1] if fixed else ""), node=r.ast, key="width:" + m.name, engine="E6")
 
 
 def gather(ctx, tk):
